@@ -54,6 +54,10 @@ pub struct Elem {
     /// a second one, at another of the four positions
     #[serde(default)]
     pub wrapper_inline2: Option<(u8, Box<Elem>)>,
+    /// inline layout only: another inline element on the same line right after this one's closing
+    /// tag (true = a blank in between, false = the tags touch)
+    #[serde(default)]
+    pub inline_next: Option<(bool, Box<Elem>)>,
     /// inline layout only: another inline element directly after the body text, inside this one
     /// (with an empty body text the two opening tags touch)
     #[serde(default)]
@@ -247,7 +251,11 @@ fn render_nodes(doc: &Doc, nodes: &[Node], out: &mut Vec<String>) {
             Node::Elem(e) => {
                 if let Some((pre, body, suf)) = &e.inline {
                     let _ = body;
-                    out.push(format!("{}{}{}{}", e.indent, pre, e.inline_core(doc), suf));
+                    let next = match &e.inline_next {
+                        Some((gap, x)) => format!("{}{}", if *gap { " " } else { "" }, x.inline_core(doc)),
+                        None => String::new(),
+                    };
+                    out.push(format!("{}{}{}{}{}", e.indent, pre, e.inline_core(doc), next, suf));
                 } else {
                     // a multi-line open tag contributes several lines
                     let n_open = e.open_tag(doc).split('\n').count();
@@ -327,6 +335,9 @@ impl Doc {
                         out.push(x);
                         c = x.inline_child.as_deref();
                     }
+                    if let Some((_, x)) = &e.inline_next {
+                        out.push(x);
+                    }
                     if let Some((_, x)) = &e.wrapper_inline {
                         out.push(x);
                     }
@@ -347,6 +358,9 @@ impl Doc {
             for n in nodes {
                 if let Node::Elem(e) = n {
                     out.push(e as *mut Elem);
+                    if let Some((_, x)) = &mut e.inline_next {
+                        out.push(&mut **x as *mut Elem);
+                    }
                     let mut cur: *mut Elem = e as *mut Elem;
                     // Safety: walks a chain of distinct boxed elements
                     while let Some(x) = unsafe { &mut *cur }.inline_child.as_mut() {
@@ -453,6 +467,7 @@ impl Doc {
                 c
             }));
             variants.push(Box::new(|e| e.inline_child.take().is_some()));
+            variants.push(Box::new(|e| e.inline_next.take().is_some()));
             variants.push(Box::new(|e| e.wrapper_inline2.take().is_some()));
             variants.push(Box::new(|e| {
                 let had = e.wrapper_inline.take().is_some();
@@ -697,6 +712,7 @@ impl<'a, 'b> DocGen<'a, 'b> {
             wrapper_inline: None,
             wrapper_inline2: None,
             inline_child: None,
+            inline_next: None,
             unwrap_degenerate: false,
         })
     }
@@ -755,6 +771,7 @@ impl<'a, 'b> DocGen<'a, 'b> {
             wrapper_inline: None,
             wrapper_inline2: None,
             inline_child: None,
+            inline_next: None,
             unwrap_degenerate: false,
         };
         if inline {
@@ -764,6 +781,18 @@ impl<'a, 'b> DocGen<'a, 'b> {
             let ok = |s: &str| !s.contains(ds) && !s.contains(de);
             if ok(&pre) && ok(&body) && ok(&suf) {
                 e.inline = Some((pre, body, suf));
+                // now and then a second inline element follows on the same line
+                if self.budget > 0 && self.rng.chance(1, 4) {
+                    self.budget -= 1;
+                    if let Some(n) = self.inline_elem("", ds, de, false) {
+                        e.inline_next = Some((self.rng.chance(1, 2), Box::new(n)));
+                        if self.rng.chance(1, 2) {
+                            if let Some(i) = e.inline.as_mut() {
+                                i.0.clear(); // the first element starts the line
+                            }
+                        }
+                    }
+                }
                 // now and then another inline element sits inside, sometimes with nothing around it
                 if self.budget > 0 && self.rng.chance(1, 4) {
                     self.budget -= 1;
